@@ -17,8 +17,8 @@ import gen_chk  # noqa: E402
 import gen_ref_spglib  # noqa: E402
 from pyast import TranslationError  # noqa: E402
 
-STATIC = ["Symmetry/Table.vo", "Symmetry/Affine.vo", "Symmetry/Expr.vo", "Reflect/GroupChecks.vo", "Reflect/NormChecks.vo",
-          "Base/CaseUtil.vo"]
+STATIC = ["Symmetry/Table.vo", "Symmetry/Affine.vo", "Symmetry/Expr.vo", "Symmetry/GroundState.vo", "Reflect/GroupChecks.vo",
+          "Reflect/NormChecks.vo", "Reflect/GroundChecks.vo", "Base/CaseUtil.vo"]
 
 
 def _cert_job(args):
@@ -111,7 +111,7 @@ def all_vo_mtime():
 
 DIAG = """From Coq Require Import ZArith List String Bool.
 Import ListNotations.
-From MV Require Import Symmetry.Table Symmetry.Affine Reflect.GroupChecks Reflect.NormChecks.
+From MV Require Import Symmetry.Table Symmetry.Affine Reflect.GroupChecks Reflect.NormChecks Reflect.GroundChecks.
 From MVD Require Import Generated.SG%(sg)03d Generated.Certs%(sg)03d Generated.RefSpglib.
 Set Printing Width 100000. Set Printing Depth 100000.
 Eval vm_compute in (chk_letters SG%(sg)03d.table, chk_exprs SG%(sg)03d.table, chk_group SG%(sg)03d.table (ref_of %(sg)d), chk_orbits SG%(sg)03d.table, chk_info SG%(sg)03d.table, chk_proper_perms_closed SG%(sg)03d.table).
